@@ -95,7 +95,12 @@ func runC05(c *core.Ctx) {
 			atomic.AddInt64(&errMut, 1)
 		}
 	})
-	c.Evals += int64(nDocs) * 5
+	wide := WideQueryDocs()
+	c.Pool.ParFor(len(wide), func(w, i int) {
+		c.CheckCase(w, "pq", thm, []byte("1"), []byte("0"), []byte(wide[i]))
+	})
+	c.Count("wide_and_deep_documents", int64(len(wide)))
+	c.Evals += int64(nDocs)*5 + int64(len(wide))
 	c.Programs = int64(nDocs)
 	c.Count("generated_documents", int64(nDocs))
 	c.Count("words_written_as_string_literals", nq)
@@ -105,6 +110,47 @@ func runC05(c *core.Ctx) {
 		c.Sample(map[string]string{"document": cases[i].r1, "mutant": cases[i].mut})
 	}
 	_ = ast.Query
+}
+
+// WideQueryDocs: one construct repeated or nested n times, for n around 64 and beyond: nothing in
+// the grammar counts.
+func WideQueryDocs() []string {
+	var out []string
+	rep := func(n int, f func(i int) string, sep string) string {
+		parts := make([]string, n)
+		for i := range parts {
+			parts[i] = f(i)
+		}
+		return strings.Join(parts, sep)
+	}
+	for _, n := range []int{1, 2, 63, 64, 65, 66, 129, 300} {
+		is := func(i int) string { return strconv.Itoa(i) }
+		out = append(out,
+			"{ "+rep(n, func(i int) string { return "...F" }, " ")+" } fragment F on T { a }",
+			"{ "+rep(n, func(i int) string { return "... on T { a }" }, " ")+" }",
+			"{ "+rep(n, func(i int) string { return "... @d { a }" }, " ")+" }",
+			"{ "+rep(n, func(i int) string { return "a" + is(i) }, " ")+" }",
+			"{ f("+rep(n, func(i int) string { return "a" + is(i) + ": " + is(i) }, ", ")+") }",
+			"query Q("+rep(n, func(i int) string { return "$v" + is(i) + ": Int = " + is(i) }, ", ")+") { a }",
+			"query Q "+rep(n, func(i int) string { return "@d" + is(i) + "(x: " + is(i) + ")" }, " ")+" { a }",
+			"{ f(l: ["+rep(n, func(i int) string { return is(i) }, ", ")+"]) }",
+			"{ f(o: {"+rep(n, func(i int) string { return "k" + is(i) + ": $v" }, ", ")+"}) }",
+			rep(n, func(i int) string { return "query Q" + is(i) + " { a ...F" + is(i) + " }" }, " "),
+			rep(n, func(i int) string { return "fragment F" + is(i) + " on T { a }" }, " "),
+			strings.Repeat("{ a ", n)+"b"+strings.Repeat(" }", n),
+			"{ "+strings.Repeat("... { ", n)+"a"+strings.Repeat(" }", n)+" }",
+			"{ "+strings.Repeat("... on T { ", n)+"a"+strings.Repeat(" }", n)+" }",
+			"{ f(l: "+strings.Repeat("[", n)+"1"+strings.Repeat("]", n)+") }",
+			"{ f(o: "+strings.Repeat("{k: ", n)+"1"+strings.Repeat("}", n)+") }",
+			"query Q($v: "+strings.Repeat("[", n)+"Int"+strings.Repeat("]", n)+") { a }",
+			"query Q($v: "+strings.Repeat("[", n)+"Int!"+strings.Repeat("]!", n)+") { a }",
+			// the same with one closing token missing
+			"query Q($v: "+strings.Repeat("[", n)+"Int"+strings.Repeat("]", n-1)+") { a }",
+			"{ f(l: "+strings.Repeat("[", n)+"1"+strings.Repeat("]", n-1)+") }",
+			"{ "+strings.Repeat("... { ", n)+"a"+strings.Repeat(" }", n-1)+" }",
+		)
+	}
+	return out
 }
 
 func hexs(s string) string {
